@@ -281,7 +281,8 @@ func (cmd *mainCmd) Run(args []string) error {
 		filename := sourcePath.Absolute
 		content, err := os.ReadFile(filename)
 		if err != nil {
-			return err
+			errors = append(errors, err)
+			continue
 		}
 		f, err := parser.ParseFile(fset, filename, content /* src */, parser.AllErrors|parser.ParseComments)
 		if err != nil {
@@ -300,7 +301,8 @@ func (cmd *mainCmd) Run(args []string) error {
 		if !ok {
 			if opts.Print {
 				if _, err := cmd.Stdout.Write(content); err != nil {
-					return err
+					errors = append(errors, err)
+					break
 				}
 			}
 			log.Printf("%s: skipped", filename)
